@@ -89,7 +89,7 @@ Definition interp (s : sstate) (p : pres) : token :=
 Inductive cop :=
 | CCreateSession (user role : bytes) (ttl rttl now : N)
 | CCreateToken (user role : bytes) (ttl now : N)
-| CRefresh (p : pres) (now1 now2 : N)
+| CRefresh (p : pres) (ttl now1 now2 : N)
 | CValidate (p : pres) (now1 now2 : N)
 | CRevoke (p : pres)
 | CSecret (sec : bytes).
@@ -138,8 +138,8 @@ Definition cstep (s : sstate) (o : cop) : sstate * cres :=
   | CCreateToken u r ttl now =>
       let '(s', x) := m_create_token s u r ttl now in
       (s', match x with ROk _ => XIssued | RErr e => XErr false end)
-  | CRefresh p n1 n2 =>
-      let '(s', x) := m_refresh s (interp s p) n1 n2 in
+  | CRefresh p ttl n1 n2 =>
+      let '(s', x) := m_refresh s (interp s p) ttl n1 n2 in
       (s', match x with ROk _ => XIssued | RErr EExpired => XErr true | RErr _ => XErr false end)
   | CValidate p n1 n2 =>
       let '(s', x) := m_validate s (interp s p) n1 n2 in
